@@ -331,7 +331,7 @@ impl Property for C18 {
         let cfg = PartCfg {
             name: "filters",
             rule: "generated histories whose contracts emit 0-4-topic logs from a pool of 6 topics (several per transaction, several transactions per block, reverted emissions, committed and uncommitted, reorgs) and 6-23 generated filters per history (ranges: absent/decimal/hex/latest/earliest/single/<=6/7+/reversed; address absent/emitter/other; 0-5 topic positions each null/value/1-3 alternatives) evaluated at generated boundaries and at the end against a reference filter over the receipts the harness collected, compared as an ordered list. Non-trivial = a filter with >= 2 matching logs from >= 2 transactions",
-            cases: ctx.tier.pick(1600, 30000),
+            cases: ctx.tier.pick(3000, 40_000),
             max_shrink_iters: ctx.tier.pick(300, 1200),
         };
         explore(ctx, ev, &cfg, strategy, check)
